@@ -868,7 +868,8 @@ pub fn join(toks: &[Tok], layout: Layout) -> String {
             out.push_str([" /** doc **/ ", " /***/ ", " /**/ ", " /* a*b */ ", " /****/ ", " /* / * */ "][i % 6])
           }
         }
-        Layout::TwoComments => out.push_str(if i % 2 == 0 { " /* a */ /* b */ " } else { " /* a */ // b\n " }),
+        // (comments made of name characters only would continue a name that stands before them, see CommentShapes)
+        Layout::TwoComments => out.push_str(if i % 2 == 0 { " /* ( a */ /* b ) */ " } else { " /* ( a */ // b )\n " }),
         Layout::LongRuns => out.push_str(if i % 2 == 0 { "             \n\t " } else { "\n               " }),
         Layout::EveryWhiteSpace => {
           // U+1680, U+180E and U+FEFF are white space by rule 61 and name characters by rule 30 at the same time: directly after a
